@@ -471,13 +471,31 @@ def r107(chk):
                    expected='-1 + 2i/(nx-1)', got=ast.unparse(st.value))
         if isinstance(st, ast.If):
             from .poly import Rat
-            test = ast.unparse(st.test).replace(' ', '')
-            ends = {'%s==0' % iv, '%s==%s-1' % (iv, nx), '%s==(%s-1)' % (iv, nx)}
-            parts = set(test.split('or'))
-            ok_test = isinstance(st.test, ast.BoolOp) and isinstance(st.test.op, ast.Or) and \
-                len(parts) == 2 and parts <= ends and ('%s==0' % iv) in parts
+            # `i == 0 or i == nx-1` (end branch first) or `i != 0 and i != nx-1` (interior branch first); the compared values are
+            # evaluated with the local definitions (last = nx-1)
+            ok_test = False
+            swap = False
+            if isinstance(st.test, ast.BoolOp) and len(st.test.values) == 2 and all(isinstance(v, ast.Compare) and len(v.ops) == 1 for v in st.test.values):
+                kinds = {type(v.ops[0]) for v in st.test.values}
+                vals = []
+                for v in st.test.values:
+                    l, r = v.left, v.comparators[0]
+                    other = r if isinstance(l, ast.Name) and l.id == iv else l if isinstance(r, ast.Name) and r.id == iv else None
+                    if other is not None:
+                        try:
+                            vals.append(from_ast(other, dict(env), ring=Rat))
+                        except Exception:
+                            pass
+                want_vals = [Rat(P()), Rat(P.sym(nx) - P.const(1))]
+                same = len(vals) == 2 and all(any(v.equals(w) for v in vals) for w in want_vals)
+                if same and isinstance(st.test.op, ast.Or) and kinds == {ast.Eq}:
+                    ok_test = True
+                elif same and isinstance(st.test.op, ast.And) and kinds == {ast.NotEq}:
+                    ok_test = swap = True
             chk.ob('R10.7', ok_test, rel, 'trapz_quad', 'end-point test', line=st.lineno,
                    expected='i == 0 or i == nx-1', got=ast.unparse(st.test))
+            if swap:
+                st = ast.copy_location(ast.If(test=st.test, body=st.orelse, orelse=st.body), st)
             hx = Rat(P.const(2), P.sym(nx) - P.const(1))
             renv = {}
             for st0 in fn.body:
